@@ -76,23 +76,59 @@ def jCmd (j : Json) : R Cmd := do
   | some (Json.str "newArray") => pure (.newArray (← jNat (← arg a 1)))
   | some (Json.str "npView") => pure (.npView (← jNat (← arg a 1)))
   | some (Json.str "mkStorage") => pure (.mkStorage (← jList jNat (← arg a 1)))
+  | some (Json.str "mkScipy") => pure (.mkScipy (← jList jNat (← arg a 1)))
   | some (Json.str "opStorage") => pure (.opStorage (← jList jNat (← arg a 1)))
   | some (Json.str "opAliased") => pure (.opAliased (← jNat (← arg a 1)))
   | some (Json.str "mkArray") => pure (.mkArray (← jNat (← arg a 1)))
   | some (Json.str "view") => pure (.view (← jNat (← arg a 1)) (← jNat (← arg a 2)))
+  | some (Json.str "rawField") => pure (.rawField (← jNat (← arg a 1)) (← jNat (← arg a 2)))
+  | some (Json.str "castView") => pure (.castView (← jNat (← arg a 1)) (← jNat (← arg a 2)))
   | some (Json.str "alias") => pure (.alias (← jNat (← arg a 1)))
   | some (Json.str "drop") => pure (.drop (← jNat (← arg a 1)))
   | some (Json.str "finalize") => pure (.finalize (← jNat (← arg a 1)))
   | _ => throw "ownership command"
 
 open SparseV.Own in
+def cmdJ : Cmd → Json
+  | .newArray t => Json.arr #[Json.str "newArray", natJ t]
+  | .npView o => Json.arr #[Json.str "npView", natJ o]
+  | .mkStorage l => Json.arr #[Json.str "mkStorage", listJ natJ l]
+  | .mkScipy l => Json.arr #[Json.str "mkScipy", listJ natJ l]
+  | .opStorage l => Json.arr #[Json.str "opStorage", listJ natJ l]
+  | .opAliased o => Json.arr #[Json.str "opAliased", natJ o]
+  | .mkArray o => Json.arr #[Json.str "mkArray", natJ o]
+  | .view x k => Json.arr #[Json.str "view", natJ x, natJ k]
+  | .rawField x k => Json.arr #[Json.str "rawField", natJ x, natJ k]
+  | .castView r x => Json.arr #[Json.str "castView", natJ r, natJ x]
+  | .alias o => Json.arr #[Json.str "alias", natJ o]
+  | .drop o => Json.arr #[Json.str "drop", natJ o]
+  | .finalize o => Json.arr #[Json.str "finalize", natJ o]
+
+open SparseV.Own in
 def kindNameJ : Kind → Json
   | .ndarray => Json.str "ndarray" | .storage => Json.str "storage" | .array => Json.str "array" | .view => Json.str "view"
+  | .scipy => Json.str "scipy"
 
 open SparseV.Own in
 def objJ (id : Nat) (o : Obj) : Json :=
   Json.mkObj [("id", natJ id), ("kind", kindNameJ o.kind), ("refs", listJ natJ o.refs), ("bufs", listJ natJ o.bufs),
-              ("owns", listJ natJ o.owns)]
+              ("owns", listJ natJ o.owns), ("om", Json.bool o.om)]
+
+open SparseV.Own in
+def cfgJ (c : Cfg) : Json :=
+  Json.mkObj [("holdInputs", Json.bool c.holdInputs), ("holdViewOwning", Json.bool c.holdViewOwning),
+              ("holdViewNonOwning", Json.bool c.holdViewNonOwning), ("fromArraysOwns", Json.bool c.fromArraysOwns),
+              ("holdOnBaseRoot", Json.bool c.holdOnBaseRoot)]
+
+open SparseV.Own in
+/-- `"code"` = the configuration read off the source (`Cfg.code`), or an object with the five flags -/
+def jCfg (j : Json) : R Cfg := do
+  match j with
+  | Json.str "code" => pure Cfg.code
+  | Json.str "full" => pure Cfg.full
+  | _ => pure { holdInputs := ← jBool (← jField j "holdInputs"), holdViewOwning := ← jBool (← jField j "holdViewOwning"),
+                holdViewNonOwning := ← jBool (← jField j "holdViewNonOwning"), fromArraysOwns := ← jBool (← jField j "fromArraysOwns"),
+                holdOnBaseRoot := ← jBool (← jField j "holdOnBaseRoot") }
 
 open SparseV.Own in
 /-- run a script; `["collect"]` finalises every unreachable object (oldest first), as CPython's
@@ -116,9 +152,11 @@ def ownRun (cfg : Cfg) (cmds : Array Json) : R Json := do
     let created := if h.objs.length > before.objs.length then objJ before.objs.length (h.obj before.objs.length) else Json.null
     let released := h.freed.take (h.freed.length - before.freed.length)
     trace := trace.push (Json.mkObj [("new", created), ("freed", listJ natJ released.reverse),
+                                     ("dangling", listJ (fun p => Json.arr #[natJ p.1, natJ p.2]) (dangling h)),
                                      ("finalized", listJ natJ (h.dead.take (h.dead.length - before.dead.length)).reverse)])
   pure (Json.mkObj [("trace", Json.arr trace), ("reachable", listJ natJ (reachable h)), ("dead", listJ natJ h.dead),
                     ("freed", listJ natJ h.freed), ("garbage", listJ natJ (garbage h)), ("nbuf", natJ h.nbuf),
+                    ("refcounts", listJ natJ ((List.range h.objs.length).map (refcount h))),
                     ("dangling", listJ (fun p => Json.arr #[natJ p.1, natJ p.2]) (dangling h))])
 
 def c20 (op : String) (a : Array Json) : R (Option Json) := do
@@ -173,8 +211,16 @@ def c20 (op : String) (a : Array Json) : R (Option Json) := do
     let order ← jList jNat (← arg a 1); let shape ← jList jNat (← arg a 2)
     pure (some (okJ (Json.bool (decide (COO.gather shape (invPerm order) ≠ lvlShape order shape)))))
   | "c20_own_run" =>
-    let hi ← jBool (← arg a 1); let hs ← jBool (← arg a 2); let cmds ← (← arg a 3).getArr?
-    pure (some (okJ (← ownRun { holdInputs := hi, holdStorage := hs } cmds)))
+    let cfg ← jCfg (← arg a 1); let cmds ← (← arg a 2).getArr?
+    pure (some (okJ (← ownRun cfg cmds)))
+  | "c20_code_cfg" =>
+    pure (some (okJ (Json.mkObj [("code", cfgJ SparseV.Own.Cfg.code), ("full", cfgJ SparseV.Own.Cfg.full),
+      ("is_full", Json.bool (decide (SparseV.Own.Cfg.code = SparseV.Own.Cfg.full))),
+      ("free_fields", Json.str (reprStr SparseV.Gen.mlirFreeFields)),
+      ("op_owns", listJ (fun p => Json.arr #[Json.str p.1, Json.bool p.2]) SparseV.Gen.mlirOpOwns)])))
+  | "c20_edge_witness" =>
+    let cfg ← jCfg (← arg a 1)
+    pure (some (okJ (listJ cmdJ (SparseV.Own.edgeWitness cfg))))
   | "c20_excluded_history" =>
     let cmds ← jList jCmd (← arg a 1)
     pure (some (okJ (Json.bool (SparseV.Own.ExcludedHistory cmds))))
